@@ -18,6 +18,14 @@ def streamTable (scenario : String) : Option String :=
   else if scenario = "cancel" then some (tail s!"st:{codeCanceled}")
   else if scenario = "deadline" then some (tail s!"st:{codeDeadlineExceeded}")
   else if scenario = "srvplain" then some (tail s!"st:{codeUnknown}")
+  else if scenario.startsWith "sendretry." then
+    -- the server refuses every attempt trailers-only with UNAVAILABLE (retryable): the k-th failing SendMsg
+    -- exhausts maxAttempts = k and returns shouldRetry's wrapped io.EOF; later sends see the finished stream
+    (scenario.drop 10).toString.toNat?.map fun k =>
+      let sends := (List.range 5).map fun i =>
+        let v := if i + 1 < k then "nil" else if i + 1 = k then canon (retryExhausted .eof) else "eof"
+        s!"send{i + 1}={v}"
+      " ".intercalate (["new=nil"] ++ sends ++ [s!"recv=st:{codeUnavailable}"])
   else if scenario.startsWith "srvst." then (scenario.drop 6).toString.toNat?.map fun c => tail s!"st:{c}"
   else none
 
